@@ -348,19 +348,18 @@ def eval_const(e, facts):
                         return 1
             return None
         if op == "&&":
-            lv = eval_const(e["l"], facts)
-            rv = eval_const(e["r"], facts)
-            if lv == 0 or rv == 0:
+            # truth values: an operand only known to be non-zero (`socket->blocking != 0`) is true without being a constant
+            lt, rt = _truth(e["l"], facts), _truth(e["r"], facts)
+            if lt is False or rt is False:
                 return 0
-            if lv is not None and rv is not None:
+            if lt is True and rt is True:
                 return 1
             return None
         if op == "||":
-            lv = eval_const(e["l"], facts)
-            rv = eval_const(e["r"], facts)
-            if (lv is not None and lv != 0) or (rv is not None and rv != 0):
+            lt, rt = _truth(e["l"], facts), _truth(e["r"], facts)
+            if lt is True or rt is True:
                 return 1
-            if lv == 0 and rv == 0:
+            if lt is False and rt is False:
                 return 0
             return None
         if op in ("&", "|", "^", "+", "-", "*", "<<", ">>"):
@@ -386,6 +385,15 @@ def eval_const(e, facts):
             return None
         return eval_const(e["a"] if c else e["b"], facts)
     # truthiness facts: x != 0 is not a constant
+    return None
+
+
+def _truth(e, facts):
+    v = eval_const(e, facts)
+    if v is not None:
+        return bool(v)
+    if known_nonzero(e, facts):
+        return True
     return None
 
 
